@@ -57,6 +57,16 @@ def load_outcome(path, n_children):
         return ('raised', type(e).__name__)
 
 
+def public_load_outcome(path):
+    """The same through the public entry point xml_handler.load(path) (what Config(path) calls)."""
+    from pyIRDecoder import xml_handler
+    try:
+        r = xml_handler.load(path, 'IRConfig')
+        return ('loaded', len(list(r)))
+    except Exception as e:  # noqa
+        return ('raised', type(e).__name__)
+
+
 def run(ctx):
     vlib.import_repo()
     from pyIRDecoder import protocols, xml_handler
@@ -134,6 +144,17 @@ def run(ctx):
                     os.remove(cfgpath + '.backup')
                 out = load_outcome(cfgpath, n_good)
                 ctx.count_eval(key=(k, with_backup))
+                if k % 5 == 0 or k < 3:
+                    # the public loader must not be more permissive than handle_file (an empty or cut file is not a new file)
+                    with open(cfgpath, 'w') as fh:
+                        fh.write(good[:k])
+                    if with_backup:
+                        with open(cfgpath + '.backup', 'w') as fh:
+                            fh.write(good)
+                    pub = public_load_outcome(cfgpath)
+                    if pub[0] == 'loaded' and pub[1] != n_good:
+                        ctx.report('xml_handler.load', 'truncated file silently loaded', dict(offset=k, backup=with_backup),
+                                   dict(offset=k, with_backup=with_backup, children_loaded=pub[1], children_saved=n_good))
                 complete_prefix = good[:k].strip() == good.strip()
                 if out[0] == 'loaded' and out[1] != n_good:
                     ctx.report('handle_file', 'truncated file silently loaded', dict(offset=k, backup=with_backup),
